@@ -80,6 +80,8 @@ namespace vs
         std::map<const void *, int> depth;               // recursive mutex depth
         std::int64_t clock_ns{0};
         std::uint64_t clock_reads{0};
+        bool spurious{false};                             // offer spurious wake-ups of condition waiters as a (costly) deviation
+        std::uint64_t spurious_wakes{0};
         std::int64_t clock_jump_ns{0};                    // != 0: every clock read is a choice point {stand still, jump ahead by this much}
         // choices
         std::vector<int> prefix;
@@ -156,6 +158,9 @@ namespace vs
             for (auto *t : s.threads) if (t->state == St::BlockedCond && t->timed) timers.push_back({t->deadline, t->id});
             std::sort(timers.begin(), timers.end());
             for (auto &[d, id] : timers) opts.push_back(1000 + id);
+            // optional deviation: a condition wait returns although nobody notified it (POSIX allows it; the code must re-check its predicate)
+            // (never the only way forward: a wedged execution must still be recognised as a deadlock)
+            if (s.spurious && !opts.empty()) for (auto *t : s.threads) if (t->state == St::BlockedCond) opts.push_back(4000 + t->id);
         }
         if (opts.empty())
         {
@@ -183,6 +188,13 @@ namespace vs
             s.trace.push_back(cp);
         }
         int pick = opts[static_cast<std::size_t>(pick_index)];
+        if (pick >= 4000)
+        {
+            Thread &w = *s.threads[static_cast<std::size_t>(pick - 4000)];
+            w.timed_out = false; w.state = St::BlockedMutex; w.wait_obj = w.reacquire; w.timed = false;
+            ++s.spurious_wakes;
+            return reschedule(s, "spurious-wake", false);
+        }
         if (s.debug) { std::string o; for (int x : opts) o += std::to_string(x) + " "; fprintf(stderr, "[vs] step %llu T%d %s opts=[%s] pick=%d\n", (unsigned long long)s.steps, me, kind, o.c_str(), pick); }
         if (pick >= 1000)
         {
